@@ -26,6 +26,10 @@ def digest(s: str) -> str:
     return s[:60] + "#" + str(h)
 
 
+class Boom(Exception):
+    """what a scripted call function raises"""
+
+
 def exact(x: float, K: int) -> str:
     v = x * K
     if v != int(v):
@@ -78,13 +82,19 @@ def impl(case) -> str:
     def fn(i):
         toks.append(f"(r{i}@{exact(clock.seconds(), K)}:{exact(calls[i].getTime(), K)}")
         for b in (bodies[i] if i < len(bodies) else []):
+            if b[0] == "raise":
+                toks.append(")!")
+                raise Boom()
             do(b)
         toks.append(")")
 
     for o in case["ops"]:
         if o[0] == "adv":
             toks.append("A")
-            clock.advance(o[1] / K)
+            try:
+                clock.advance(o[1] / K)
+            except Boom:
+                pass                      # Clock.advance lets the exception of a call function through
             toks.append("=" + exact(clock.seconds(), K))
         else:
             do(o)
@@ -111,6 +121,7 @@ class Ref:
         self.nonneg = all(len(b) < 2 or b[0] == "cancel" or b[-1] >= 0
                           for b in list(case["ops"]) + [x for body in case["bodies"] for x in body])
         self.iteration = 0
+        self.raised = False    # the call function consumed last ended by raising
 
     def fail(self, reason, tag):
         return Failure(self.case, f"token {self.pos}: {reason}", tag)
@@ -203,7 +214,13 @@ class Ref:
         self.status[i] = "R"
         self.lastrun = self.sched[i]
         bodies = self.case["bodies"]
+        self.raised = False
         for b in (bodies[i] if i < len(bodies) else []):
+            if b[0] == "raise":
+                if self.take() != ")!":
+                    return self.fail(f"the function of call {i} did not raise as scripted", "log")
+                self.raised = True
+                return None
             f = self.bop(b)
             if f:
                 return f
@@ -226,11 +243,19 @@ def oracle(case, obs):
             return r.fail("harness token", "log")
         r.now += o[1]
         r.iteration += 1
+        aborted = False
         while (r.peek() or "").startswith("(r"):
             f = r.run_event(r.now)
             if f:
                 return f
-        due = [i for i in r.pending() if r.sched[i] <= r.now]
+            if r.raised:
+                # Clock.advance propagates the exception: nothing else may run in this advance; what was due
+                # stays pending (and must run in a later advance, which the next iteration of this check sees)
+                aborted = True
+                if (r.peek() or "").startswith("(r"):
+                    return r.fail("a call ran in the same advance after a call function raised", "ran-after-raise")
+                break
+        due = [] if aborted else [i for i in r.pending() if r.sched[i] <= r.now]
         if due:
             return r.fail(f"advance to {r.now} returned with due call(s) {due} still pending "
                           f"(times {[r.sched[i] for i in due]})", "due-call-not-run")
@@ -264,6 +289,7 @@ def rand_bop(rng, nid, small, neg=False):
 
 def rand_case(rng, nops, neg=False, adv_name="adv"):
     k = rng.choice([0, 1, 3, 10, 20])
+    raise_p = rng.choice([0.0, 0.0, 0.2, 0.5])
     small = rng.choice([[0, 1, 2, 3], [0, 1, 1, 2, 4, 8], [0, 5, 7, 16, 1000], [1, 2 ** 30, 3]])
     ops, created = [], 0
     nbodies = rng.randrange(0, 12)
@@ -273,6 +299,8 @@ def rand_case(rng, nops, neg=False, adv_name="adv"):
             bodies.append([])
         else:
             bodies.append([rand_bop(rng, i + rng.randrange(4), small, neg) for _ in range(rng.randrange(1, 4))])
+            if rng.random() < raise_p:
+                bodies[-1].insert(rng.randrange(len(bodies[-1]) + 1), ["raise"])
     p_adv = rng.choice([0.15, 0.3, 0.5])
     for _ in range(nops):
         if rng.random() < p_adv:
@@ -295,6 +323,9 @@ ALPHABET = [["later", 0], ["later", 1], ["later", 2], ["adv", 1], ["cancel", 0],
 # call 1 cancels call 2 and pushes call 0; call 2 schedules two calls for the same time and resets the older
 EXH_BODIES = [[["later", 0], ["reset", 1, 0]], [["cancel", 2], ["delay", 0, 1]],
               [["later", 1], ["later", 1], ["reset", 3, 1]], [["snap"]]]
+# the same with exceptions: call 0 raises after scheduling, call 1 raises at once
+EXH_BODIES_RAISE = [[["later", 0], ["raise"], ["reset", 1, 0]], [["raise"]],
+                    [["later", 1], ["later", 1], ["reset", 3, 1]], [["snap"], ["raise"]]]
 
 
 def gen(rng, tier):
@@ -305,7 +336,7 @@ def gen(rng, tier):
             if n == depth and rng.random() > (0.05 if tier == "quick" else 0.06):
                 continue
             ops = [ALPHABET[a] for a in word] + [["snap"], ["adv", 1], ["snap"], ["adv", 3], ["snap"]]
-            cases.append({"k": 1, "ops": ops, "bodies": EXH_BODIES if word[0] % 2 == 0 else []})
+            cases.append({"k": 1, "ops": ops, "bodies": [EXH_BODIES, [], EXH_BODIES_RAISE][word[0] % 3]})
     for _ in range(220 if tier == "quick" else 4000):
         cases.append(rand_case(rng, rng.randrange(5, 60)))
     for _ in range(70 if tier == "quick" else 1000):      # negative delays / advances: the code accepts them
@@ -326,6 +357,9 @@ def corpus():
         {"k": 1, "ops": [["later", 4], ["later", 6], ["delay", 1, -3], ["snap"], ["adv", 4], ["adv", 2]],
          "bodies": []},
         {"k": 0, "ops": [["adv", 0], ["snap"]], "bodies": []},
+        # a call function raises: advance() propagates, the other due calls wait for the next advance
+        {"k": 0, "ops": [["later", 5], ["later", 5], ["later", 5], ["adv", 5], ["snap"], ["adv", 0], ["snap"]],
+         "bodies": [[["later", 0], ["raise"], ["cancel", 1]], [["raise"]]]},
     ]
 
 
@@ -342,6 +376,8 @@ def coq_bop(b):
         return f"BReset {b[1]}%nat ({b[2]})"
     if b[0] == "delay":
         return f"BDelay {b[1]}%nat ({b[2]})"
+    if b[0] == "raise":
+        return "BRaise"
     return "BSnap"
 
 
@@ -377,7 +413,7 @@ def histogram(case, obs):
     nested = sum(len(b) for b in case["bodies"]) > 0
     neg = any(len(b) > 1 and b[0] != "cancel" and b[-1] < 0 for b in case["ops"] + [x for y in case["bodies"] for x in y])
     return f"runs={'0' if runs == 0 else '1-3' if runs < 4 else '4-9' if runs < 10 else '10+'} " \
-           f"bodies={'y' if nested else 'n'} negative={'y' if neg else 'n'}"
+           f"bodies={'y' if nested else 'n'} negative={'y' if neg else 'n'} raised={'y' if ')!' in obs else 'n'}"
 
 
 SPEC = Spec(
@@ -391,14 +427,14 @@ SPEC = Spec(
     histogram=histogram,
     rule="every history of length <= 4 (quick; the longest length sampled 5%) / <= 5 (thorough, longest 6%) over a "
          "9-letter alphabet {callLater 0/1/2, advance 1, cancel #0, reset #1 +1, reset #0 +0, delay #0 +1, delay #1 -1} "
-         "with and without a fixed table of call bodies (nested callLater/reset/cancel/delay), each followed by "
+         "with a fixed table of call bodies (nested callLater/reset/cancel/delay), without, and with a table whose functions raise, each followed by "
          "snapshots and two advances; random histories of 5-60 operations with random body tables, scales 2^0..2^-20, "
          "tie-heavy small delays and 2^30-size delays; a separate stream with negative delays/advances; "
          "non-trivial = at least one call ran; distinct by (case, observation)",
     trusted=["hand-written model coq/C09/Model.v + coq/Lib/TimersCall.v (tied by this correspondence run only)",
              "Python list.sort is stable (the model uses insertion sort; any stable sort gives the same list)",
-             "call functions are scripts of timer-API operations; functions that raise, or that call advance() "
-             "re-entrantly, are not modelled"],
+             "call functions are scripts of timer-API operations that may end by raising; functions that call "
+             "advance() re-entrantly are not modelled"],
     assumptions=["float arithmetic (+, -, <, <=) is exact on the generated times: integers n with |n| < 2^34 scaled by "
                  "2^-k, k <= 20 (the harness prints any inexact time with a '~' so that it could never match the model)"],
 )
